@@ -717,6 +717,8 @@ pub enum WireFault {
     DupPart(usize),
     /// JSON envelope: replace member `key` by `value` (type flip) or remove it (None)
     JsonMember { key: String, value: Option<Value> },
+    /// JSON envelope: the member appears twice in the text (second copy with `value`)
+    JsonDupMember { key: String, value: Value },
 }
 
 impl WireFault {
@@ -729,6 +731,7 @@ impl WireFault {
             WireFault::DropPart(_) => "drop_part",
             WireFault::DupPart(_) => "dup_part",
             WireFault::JsonMember { .. } => "json_type_flip",
+            WireFault::JsonDupMember { .. } => "json_duplicate_member",
         }
     }
 }
@@ -775,6 +778,10 @@ pub fn apply_wire(f: &WireFault, s: &str) -> String {
             }
             v.join("~")
         }
+        WireFault::JsonDupMember { key, value } => match s.rfind('}') {
+            Some(i) if s.trim_start().starts_with('{') => format!("{},{}:{}{}", &s[..i], Value::String(key.clone()), value, &s[i..]),
+            _ => s.to_string(),
+        },
         WireFault::JsonMember { key, value } => match serde_json::from_str::<Value>(s) {
             Ok(Value::Object(mut o)) => {
                 match value {
